@@ -413,19 +413,21 @@ func (fr *Frame) cutLoop(h *ssa.BasicBlock, phis []*ssa.Phi, reach T, st *State)
 	preAlloc := ex.get(st, ex.allocComp())
 	st = st.clone()
 	for _, k := range sortedKeys(modified) {
-		// reference-indexed components written only at loop-invariant indices keep every other index
-		if strings.HasPrefix(ex.comps[k], "(Array Ref") {
+		// reference-indexed components written only at loop-invariant indices, or at objects allocated inside the
+		// loop, keep every other index that was allocated before the loop
+		if strings.HasPrefix(ex.comps[k], "(Array Ref") && k != "Alloc" {
 			base := ex.get(st, k)
-			idxs, ok := []string{}, true
+			idxs, ok, anyFresh := []string{}, true, false
 			for _, e := range backs {
-				ix, ok2 := ex.writtenIndices(ex.get(e.st, k).s, base.s, snapN)
+				ix, fr2, ok2 := ex.writtenIndices(ex.get(e.st, k).s, base.s, snapN)
 				if !ok2 {
 					ok = false
 					break
 				}
+				anyFresh = anyFresh || fr2
 				idxs = append(idxs, ix...)
 			}
-			if ok {
+			if ok && !anyFresh {
 				t := base
 				seen := map[string]bool{}
 				for _, ix := range idxs {
@@ -436,6 +438,21 @@ func (fr *Frame) cutLoop(h *ssa.BasicBlock, phis []*ssa.Phi, reach T, st *State)
 					t = store(t, T{ix, "Ref"}, ex.fresh("hv_"+k, elemSort(ex.comps[k])))
 				}
 				st.m[k] = ex.define(k, t)
+				continue
+			}
+			if ok {
+				a := ex.fresh(k, ex.comps[k])
+				var excl []T
+				seen := map[string]bool{}
+				for _, ix := range idxs {
+					if !seen[ix] {
+						seen[ix] = true
+						excl = append(excl, not(eq(T{"o", "Ref"}, T{ix, "Ref"})))
+					}
+				}
+				guard := and(append([]T{sel(preAlloc, T{"o", "Ref"})}, excl...)...)
+				ex.emit(fmt.Sprintf("(assert (forall ((o Ref)) (! (=> %s (= (select %s o) (select %s o))) :pattern ((select %s o)))))", guard.s, a.s, base.s, a.s))
+				st.m[k] = a
 				continue
 			}
 		}
@@ -518,38 +535,45 @@ func (fr *Frame) contractForLoops() *FuncContract {
 var _ = types.Typ
 
 // writtenIndices: the reference indices at which term differs from base, when term is built from base by stores and
-// ites only and every index is loop-invariant (mentions no symbol created after counter snapN).
-func (ex *Exec) writtenIndices(term, base string, snapN int) ([]string, bool) {
+// ites only and every index is either loop-invariant (mentions no symbol created after counter snapN) or a reference
+// allocated inside the loop (second result true when there is one).
+func (ex *Exec) writtenIndices(term, base string, snapN int) ([]string, bool, bool) {
 	term = strings.TrimSpace(term)
 	if term == base {
-		return nil, true
+		return nil, false, true
 	}
 	if isAtom(term) {
 		if d, ok := ex.defs[term]; ok {
 			return ex.writtenIndices(d, base, snapN)
 		}
-		return nil, false
+		return nil, false, false
 	}
 	parts := splitSexpr(term)
 	if len(parts) != 4 {
-		return nil, false
+		return nil, false, false
 	}
 	switch parts[0] {
 	case "store":
-		rest, ok := ex.writtenIndices(parts[1], base, snapN)
-		if !ok || !ex.loopInvariantTerm(parts[2], snapN) {
-			return nil, false
+		rest, fr, ok := ex.writtenIndices(parts[1], base, snapN)
+		if !ok {
+			return nil, false, false
 		}
-		return append(rest, parts[2]), true
+		if ex.allocSyms[parts[2]] && !ex.loopInvariantTerm(parts[2], snapN) {
+			return rest, true, true
+		}
+		if !ex.loopInvariantTerm(parts[2], snapN) {
+			return nil, false, false
+		}
+		return append(rest, parts[2]), fr, true
 	case "ite":
-		a, ok1 := ex.writtenIndices(parts[2], base, snapN)
-		b, ok2 := ex.writtenIndices(parts[3], base, snapN)
+		a, f1, ok1 := ex.writtenIndices(parts[2], base, snapN)
+		b, f2, ok2 := ex.writtenIndices(parts[3], base, snapN)
 		if !ok1 || !ok2 {
-			return nil, false
+			return nil, false, false
 		}
-		return append(a, b...), true
+		return append(a, b...), f1 || f2, true
 	}
-	return nil, false
+	return nil, false, false
 }
 
 var bangNum = regexp.MustCompile(`!(\d+)`)
